@@ -30,10 +30,11 @@ Apply(d, P, c) ==
                                         IF c.item >= 0 THEN ItemEv(c.item, c.st, c.res, c.acc)
                                         ELSE ActionEv(c.st, c.res))
                            IN [S |-> x.S, ret |-> x.ret, offers |-> << >>]
+    [] c.op = "rerun"   -> LET x == Rerun(d, P, c.arg) IN [S |-> x.S, ret |-> x.ret, offers |-> << >>]
     [] c.op = "render"  -> [S |-> Render(d, P), ret |-> "ok", offers |-> << >>]
     [] OTHER            -> [S |-> P, ret |-> "ok", offers |-> << >>]
 
-Modelled(c) == c.op \in {"new", "req", "query", "start", "report", "render", "persist"}
+Modelled(c) == c.op \in {"new", "req", "query", "start", "report", "render", "persist", "rerun"}
 
 Diff(d, prev, step) ==
   IF ~Modelled(step.call) THEN {}
@@ -45,6 +46,7 @@ Diff(d, prev, step) ==
            F("wf", x.S.wf = o.wf) \cup F("seq", x.S.seq = o.seq) \cup F("staged", x.S.staged = o.staged) \cup
            F("ctxs", x.S.ctxs = o.ctxs) \cup F("routes", x.S.routes = o.routes) \cup F("ptr", x.S.ptr = o.ptr) \cup
            F("errs", x.S.errs = o.errs) \cup F("hasout", x.S.hasout = o.hasout) \cup F("out", x.S.out = o.out) \cup
+           F("reruns", x.S.reruns = o.reruns) \cup
            F("offers", step.call.op # "query" \/ x.offers = o.offers))
 
 Init == tr \in 1..Len(Batch) /\ nd = 0
